@@ -784,3 +784,6 @@ class GhmDrawSym(Contract):
         cond = self.cond
         goal = z3.If(cond.is_none(j0), T.zr(r.get((k0, j0))) == ICDF(j0, u, Fraction(0)), T.zr(r.get((k0, j0))) == ICDF(j0, u, r.get((k0, cond.idx(j0)))))
         cx.oblige("post.rosenblatt_sample", goal, "post", "every cell is drawn from its (conditional) distribution given the same row's declared conditioning value, blocks of one threaded generator")
+        cx.oblige("frame.draw_sample", not self.model.writes, "frame",
+                  f"drawing keeps nothing on the model (wrote {self.model.writes}): a sample handed out earlier can never be overwritten by a later draw")
+        cx.oblige("post.fresh_array", r.buf.owner == "call", "post", "the sample is an array allocated by this call (not one that an earlier caller still holds)")
